@@ -27,7 +27,7 @@ def run(ctx):
     if quick:
         mc_tags = ["c06-wide"]
         jobs = [lambda: fam.mc(ctx, "c06-wide", "wide", 2, 1, modes=("d", "f"), workers=2),
-                lambda: fam.gen(ctx, "wide", 2), lambda: fam.gen(ctx, "deep", 4), lambda: fam.gen(ctx, "rand", 6, samples=330, shards=1)]
+                lambda: fam.gen(ctx, "wide", 2), lambda: fam.gen(ctx, "deep", 4), lambda: fam.gen(ctx, "rand", 7, samples=1500, shards=2)]
     else:
         mc_tags = ["MC_Inject", "MC_Inject_deep"]
         jobs = [lambda: fam.mc_static(ctx, "MC_Inject", workers=4, coverage=True), lambda: fam.mc_static(ctx, "MC_Inject_deep", workers=4, coverage=True),
@@ -64,7 +64,7 @@ def run(ctx):
              "%d seeded random chains of <=%d segments over the full option set (all printed by TLC with the allowed results); each concretised %s "
              "and run through library, -f, -d, -p (evaluations = file x mode observations). non-trivial = distinct abstract file in which at least "
              "one field must be rewritten (no allowed result equals the original literal)" % (
-                 (2, 4, 330, 6, "once") if quick else (3, 5, 2000, 8, "twice with different text")),
+                 (2, 4, 1500, 7, "once") if quick else (3, 5, 2000, 8, "twice with different text")),
         abstract_files=st["files"], file_stats=st, concrete_files=len(numbered), harness_counters=counters,
         mc_action_counts=cov_actions, sanity_refuted=refuted,
         exhaustive=True,
